@@ -280,7 +280,10 @@ func runC05(c *Ctx) {
 	} else {
 		fields := structFields(osT)
 		saved := map[string]int{}
-		for _, st := range StoresToField(initOS, func(fa *ssa.FieldAddr) bool { _, owner := FieldOf(fa); return strings.HasSuffix(owner, "OriginalDeploymentStrategy") }) {
+		for _, st := range StoresToField(initOS, func(fa *ssa.FieldAddr) bool {
+			_, owner := FieldOf(fa)
+			return strings.HasSuffix(owner, "OriginalDeploymentStrategy")
+		}) {
 			n, _ := FieldOf(st.Addr.(*ssa.FieldAddr))
 			saved[n]++
 		}
@@ -310,7 +313,9 @@ func runC05(c *Ctx) {
 						continue
 					}
 					t := TermOf(call.Common().Args[1])
-					if t.Any(func(x *Term) bool { return x.Op == "field" && x.Name == f && x.Any(MCall("control.GetOriginalSetting")) }) {
+					if t.Any(func(x *Term) bool {
+						return x.Op == "field" && x.Name == f && x.Any(MCall("control.GetOriginalSetting"))
+					}) {
 						restored = true
 					}
 				}
